@@ -433,7 +433,7 @@ int main(int argc, char *argv[])
     int ch = 0;
     char str[17];
     int ptr = 0;
-    uint32_t i;
+    uint64_t i;
 
     fprintf(asm_context.list, "data sections:");
 
@@ -447,7 +447,7 @@ int main(int argc, char *argv[])
           {
             output_hex_text(asm_context.list, str, ptr);
           }
-          fprintf(asm_context.list, "\n%04x:", i/asm_context.bytes_per_address);
+          fprintf(asm_context.list, "\n%04x:", (uint32_t)(i / asm_context.bytes_per_address));
           ptr = 0;
 
           // A run that starts inside an address unit (bytes_per_address > 1):
